@@ -9,3 +9,129 @@ package parse
 func VerifRawtext(s string, trimBefore, trimAfter bool) []byte {
 	return rawtext(s, trimBefore, trimAfter)
 }
+
+// VerifItem is a lexer token as seen by the parser.
+type VerifItem struct {
+	Typ string
+	Pos int
+	Val string
+}
+
+var verifItemNames = map[itemType]string{
+	itemInvalid: "Invalid", itemEOF: "EOF", itemError: "Error",
+	itemLeftDelim: "LeftDelim", itemRightDelim: "RightDelim", itemRightDelimEnd: "RightDelimEnd",
+	itemText: "Text", itemEquals: "Equals",
+	itemNull: "Null", itemBool: "Bool", itemInteger: "Integer", itemFloat: "Float", itemString: "String",
+	itemComma: "Comma", itemColon: "Colon", itemPipe: "Pipe",
+	itemIdent: "Ident", itemDollarIdent: "DollarIdent", itemDotIdent: "DotIdent",
+	itemQuestionDotIdent: "QuestionDotIdent", itemDotIndex: "DotIndex", itemQuestionDotIndex: "QuestionDotIndex",
+	itemLeftBracket: "LeftBracket", itemRightBracket: "RightBracket", itemQuestionKey: "QuestionKey",
+	itemNegate: "Negate", itemMul: "Mul", itemDiv: "Div", itemMod: "Mod", itemAdd: "Add", itemSub: "Sub",
+	itemEq: "Eq", itemNotEq: "NotEq", itemGt: "Gt", itemGte: "Gte", itemLt: "Lt", itemLte: "Lte",
+	itemNot: "Not", itemOr: "Or", itemAnd: "And", itemTernIf: "TernIf", itemElvis: "Elvis",
+	itemLeftParen: "LeftParen", itemRightParen: "RightParen",
+	itemSoyDocStart: "SoyDocStart", itemSoyDocParam: "SoyDocParam", itemSoyDocOptionalParam: "SoyDocOptionalParam",
+	itemSoyDocEnd: "SoyDocEnd", itemComment: "Comment",
+	itemHeaderParam: "HeaderParam", itemHeaderOptionalParam: "HeaderOptionalParam", itemHeaderParamType: "HeaderParamType",
+	itemCommand: "Command", itemAlias: "Alias", itemCall: "Call", itemCase: "Case", itemCss: "Css",
+	itemDefault: "Default", itemDelcall: "Delcall", itemDelpackage: "Delpackage", itemDeltemplate: "Deltemplate",
+	itemElse: "Else", itemElseif: "Elseif", itemFor: "For", itemForeach: "Foreach", itemIf: "If",
+	itemIfempty: "Ifempty", itemLet: "Let", itemLiteral: "Literal", itemMsg: "Msg", itemNamespace: "Namespace",
+	itemParam: "Param", itemPlural: "Plural", itemPrint: "Print", itemSwitch: "Switch", itemTemplate: "Template",
+	itemLog: "Log", itemDebugger: "Debugger",
+	itemSpecialChar: "SpecialChar", itemSpace: "Space", itemNil: "Nil", itemTab: "Tab",
+	itemCarriageReturn: "CarriageReturn", itemNewline: "Newline", itemLeftBrace: "LeftBrace", itemRightBrace: "RightBrace",
+	itemCommandEnd: "CommandEnd", itemCallEnd: "CallEnd", itemDelcallEnd: "DelcallEnd", itemDeltemplateEnd: "DeltemplateEnd",
+	itemForEnd: "ForEnd", itemForeachEnd: "ForeachEnd", itemIfEnd: "IfEnd", itemLetEnd: "LetEnd",
+	itemLiteralEnd: "LiteralEnd", itemMsgEnd: "MsgEnd", itemParamEnd: "ParamEnd", itemPluralEnd: "PluralEnd",
+	itemSwitchEnd: "SwitchEnd", itemTemplateEnd: "TemplateEnd", itemLogEnd: "LogEnd",
+}
+
+func verifItemName(t itemType) string {
+	if n, ok := verifItemNames[t]; ok {
+		return n
+	}
+	return "item?"
+}
+
+// VerifLex runs the real lexer goroutine and collects every token from its
+// channel until the channel is closed (max tokens as a safety net).
+func VerifLex(name, input string, exprMode bool, max int) []VerifItem {
+	var l *lexer
+	if exprMode {
+		l = lexExpr(name, input)
+	} else {
+		l = lex(name, input)
+	}
+	var out []VerifItem
+	for it := range l.items {
+		out = append(out, VerifItem{verifItemName(it.typ), int(it.pos), it.val})
+		if len(out) >= max {
+			go l.drain()
+			break
+		}
+	}
+	return out
+}
+
+// VerifUnquote / VerifQuote expose the Soy string literal (un)escaping.
+func VerifUnquote(s string) (string, error) { return unquoteString(s) }
+func VerifQuote(s string) string            { return quoteString(s) }
+
+// VerifTables dumps the tables the proofs depend on, by token name.
+type VerifTablesT struct {
+	Precedence      map[string]int
+	BuiltinIdents   map[string]string
+	Symbols         map[string]string
+	SpecialChars    map[string]string
+	Unescapes       map[rune]rune
+	BinaryOps       []string
+	UnaryOps        []string
+	UnaryMinusAfter []string // token types after which '-' is lexed as unary
+	ItemOrder       []string // all token type names in declaration order
+}
+
+func VerifTables() VerifTablesT {
+	var t = VerifTablesT{
+		Precedence: map[string]int{}, BuiltinIdents: map[string]string{}, Symbols: map[string]string{},
+		SpecialChars: map[string]string{}, Unescapes: map[rune]rune{},
+	}
+	for k, v := range precedence {
+		t.Precedence[verifItemName(k)] = v
+	}
+	for k, v := range builtinIdents {
+		t.BuiltinIdents[k] = verifItemName(v)
+	}
+	for k, v := range arithmeticItemsBySymbol {
+		t.Symbols[k] = verifItemName(v)
+	}
+	for k, v := range specialChars {
+		t.SpecialChars[verifItemName(k)] = v
+	}
+	for k, v := range unescapes {
+		t.Unescapes[k] = v
+	}
+	for it := itemInvalid; it <= itemLogEnd; it++ {
+		t.ItemOrder = append(t.ItemOrder, verifItemName(it))
+		if isBinaryOp(it) {
+			t.BinaryOps = append(t.BinaryOps, verifItemName(it))
+		}
+		if isUnaryOp(item{typ: it}) {
+			t.UnaryOps = append(t.UnaryOps, verifItemName(it))
+		}
+		// probe lexNegative: run it on "-x" with lastEmit of this type
+		func() {
+			l := &lexer{input: "-x", items: make(chan item, 4), pos: 1, width: 1}
+			l.lastEmit = item{typ: it}
+			lexNegative(l)
+			select {
+			case got := <-l.items:
+				if got.typ == itemNegate {
+					t.UnaryMinusAfter = append(t.UnaryMinusAfter, verifItemName(it))
+				}
+			default:
+			}
+		}()
+	}
+	return t
+}
